@@ -38,7 +38,7 @@ func (p *propCfg) shards(t string) int {
 func (p *propCfg) watchdog(t string) int {
 	n := p.Watchdog[tierIdx(t)]
 	if n == 0 {
-		n = [2]int{240, 3000}[tierIdx(t)]
+		n = [2]int{480, 3000}[tierIdx(t)]
 	}
 	return n
 }
